@@ -9,6 +9,8 @@ Three independent pieces, Python stdlib only:
 3. Cpp          - a tiny textual-inclusion preprocessor over a virtual file system with a search chain
                   (includer's directory for "", then the chain: -I..., system, -idirafter) incl. #include_next
                   and #pragma once.  It knows nothing about include guards: guards are just conditionals.
+                  With a VFS (directories, files, symbolic links; POSIX path resolution) a header is identified by
+                  the physical file its spelling resolves to, never by a rewritten form of the spelling.
 """
 import os
 import re
@@ -477,12 +479,83 @@ def lex(s):
     return _TOK.findall(s)
 
 
+class VFS:
+    """A file system with symbolic links: dirs = set of physical directory paths, files = {physical path: text},
+    links = {physical path of the link: target string}.  Paths are resolved the way the kernel does (POSIX 4.13):
+    component by component, `..` is the parent of the PHYSICAL directory reached so far, a link's target is resolved
+    relative to the directory holding the link.  No textual simplification of a spelling is ever made."""
+
+    def __init__(self, dirs, files, links):
+        self.dirs = set(dirs) | {"/"}
+        self.files = dict(files)
+        self.links = dict(links)
+
+    @staticmethod
+    def parent(p):
+        return os.path.dirname(p) or "/"
+
+    def lookup(self, start, path, depth=0):
+        """-> (physical path of the directory or file named by `path` seen from directory `start`, physical
+        directory in which its last component was looked up) or None"""
+        if depth > 8:
+            return None
+        cur = "/" if path.startswith("/") else start
+        held = cur
+        comps = path.split("/")
+        for i, c in enumerate(comps):
+            last = i == len(comps) - 1
+            if c in ("", "."):
+                continue
+            if c == "..":
+                cur = held = self.parent(cur)
+                continue
+            p = (cur if cur != "/" else "") + "/" + c
+            held = cur
+            if p in self.links:
+                r = self.lookup(cur, self.links[p], depth + 1)
+                if r is None:
+                    return None
+                p = r[0]
+            if last:
+                return (p, held) if (p in self.files or p in self.dirs) else None
+            if p not in self.dirs:
+                return None
+            cur = p
+        return (cur, held)
+
+    def lookup_file(self, start, path):
+        r = self.lookup(start, path)
+        return r if r is not None and r[0] in self.files else None
+
+
+def path_spellings(vfs, base, comps, leaves, maxlen):
+    """Every relative spelling c1/c2/.../leaf with <= maxlen components out of `comps` (the first one not empty: that
+    would be an absolute path) which names an existing file when looked up from directory `base`.
+    -> [(spelling, number of components, physical file)] in a fixed order"""
+    import itertools
+    out = []
+    for n in range(maxlen + 1):
+        for seq in itertools.product(comps, repeat=n):
+            if seq and seq[0] == "":
+                continue
+            for leaf in leaves:
+                sp = "/".join(seq + (leaf,))
+                r = vfs.lookup_file(base, sp)
+                if r is not None:
+                    out.append((sp, n, r[0]))
+    return out
+
+
+_HEADER_NAME = re.compile(r'^\s*#\s*(include|include_next)\s*("[^"\n]*"|<[^>\n]*>)\s*$')
+
+
 class Cpp:
     """files: {normalised absolute path: text}; chain: ordered search directories (-I..., system, -idirafter).
     Macros are object-like with at most one replacement token (enough for guards, -D/-U and #include NAME)."""
 
-    def __init__(self, files, chain, macros=None, maxdepth=40):
+    def __init__(self, files, chain, macros=None, maxdepth=40, vfs=None):
         self.files = files
+        self.vfs = vfs              # None: `files` is keyed by normalised absolute paths and there are no links
         self.chain = list(chain)
         self.macros = dict(macros or {})
         self.fmacros = {}           # name -> (parameter, body tokens)
@@ -495,22 +568,34 @@ class Cpp:
         self.pending = None
 
     # ---- lookup ---------------------------------------------------------
+    def _locate(self, d, name):
+        """-> (identity of the file `name` looked up from directory d, directory in which the last component of the
+        name was looked up = the directory a quote-form #include inside that file starts in) or None"""
+        if self.vfs is not None:
+            return self.vfs.lookup_file(d, name)
+        p = os.path.normpath(name if name.startswith("/") else d + "/" + name)
+        return (p, os.path.dirname(p)) if p in self.files else None
+
     def _find(self, name, start):
         for i in range(start, len(self.chain)):
-            p = os.path.normpath(self.chain[i] + "/" + name)
-            if p in self.files:
-                return p, i
+            r = self._locate(self.chain[i], name)
+            if r is not None:
+                return r[0], i, r[1]
         raise Reject("not found: " + name)
 
-    def resolve(self, name, quote, cur_path, cur_idx, nxt):
+    def resolve(self, name, quote, cur_dir, cur_idx, nxt):
+        """-> (file, index in the chain or None, directory of the file as named)"""
         if name.startswith("/"):
-            return os.path.normpath(name), None
+            r = self._locate("/", name)
+            if r is None:
+                return os.path.normpath(name), None, os.path.dirname(os.path.normpath(name))
+            return r[0], None, r[1]
         if nxt:
             return self._find(name, 0 if cur_idx is None else cur_idx + 1)
         if quote:
-            p = os.path.normpath(os.path.dirname(cur_path) + "/" + name)
-            if p in self.files:
-                return p, None
+            r = self._locate(cur_dir, name)
+            if r is not None:
+                return r[0], None, r[1]
         return self._find(name, 0)
 
     # ---- expressions of the restricted #if language ----------------------
@@ -557,9 +642,13 @@ class Cpp:
         self.process(os.path.normpath(path), None, primary=True)
         return self.out
 
-    def process(self, path, idx, primary=False):
+    def process(self, path, idx, primary=False, ldir=None):
+        """path: identity of the file; ldir: the directory it was found in as named (differs from the directory of
+        `path` only when the name's last component is a symbolic link to a file elsewhere)"""
         if path in self.once:
             return
+        if ldir is None:
+            ldir = os.path.dirname(path)
         if path not in self.files:
             raise Reject("no such file " + path)
         self.depth += 1
@@ -569,7 +658,11 @@ class Cpp:
         stack = []      # [ctx, taken, active]
         # translation phases 2 and 3 as far as needed: splice lines, drop comments (never spanning lines here)
         for line in self.files[path].replace("\\\n", "").split("\n"):
-            toks = lex(_COMMENT.sub(" ", line))
+            hn = _HEADER_NAME.match(line)
+            if hn:      # a header-name is one preprocessing token (6.4.7): `//` inside it does not start a comment
+                toks = ["#", hn.group(1)] + lex(hn.group(2))
+            else:
+                toks = lex(_COMMENT.sub(" ", line))
             if not toks:
                 continue
             act = all(f[2] for f in stack)
@@ -662,9 +755,9 @@ class Cpp:
                 if nxt and primary:
                     raise Undef("#include_next in the primary file")
                 self.pending = (d, quote, name, path)       # the lookup in progress (kept when it raises Reject)
-                p, i = self.resolve(name, quote, path, idx, nxt)
+                p, i, pdir = self.resolve(name, quote, ldir, idx, nxt)
                 self.events.append((d, quote, name, p, i, len(self.out), path))
-                self.process(p, i)
+                self.process(p, i, ldir=pdir)
             else:
                 raise Undef("directive " + d)
         if stack:
